@@ -615,3 +615,45 @@ Definition qweight (x : qstate) : nat :=
   | QTrack _ _ _ _ => 1%nat
   end.
 Definition qw (o : option qstate) : nat := match o with Some x => qweight x | None => 0%nat end.
+
+(* ---- counting obligations: (kind, query, peer) ---- *)
+Definition act_is (k : bool) (q : N) (a : pact) : bool := Bool.eqb (find_act a) k && (a_q a =? q).
+Definition fut_for (k : bool) (q p : N) (f : fut) : bool :=
+  fut_is k f && opt_is (f_q f) q && (f_peer f =? p).
+Definition cnt_dial (s : st) (k : bool) (q p : N) : nat :=
+  match aget p (pdial s) with Some acts => length (filter (act_is k q) acts) | None => 0%nat end.
+Definition cnt_sub (s : st) (k : bool) (q p : N) : nat :=
+  match aget p (peers s) with
+  | Some acts => length (filter (fun x : N * pact => act_is k q (snd x)) acts)
+  | None => 0%nat
+  end.
+Definition cnt_fut (s : st) (k : bool) (q p : N) : nat := length (filter (fut_for k q p) (futs s)).
+Definition cnt (s : st) (k : bool) (q p : N) : nat :=
+  (cnt_dial s k q p + cnt_sub s k q p + cnt_fut s k q p)%nat.
+
+(* completed sends of the send phase only: futures created for SendPutValue / SendAddProvider *)
+Definition put_sent_by (s : st) (e : ev) : list (N * N) :=
+  match e with
+  | EFut id r =>
+      match find_fut id (futs s) with
+      | Some f => if res_ok (f_kind f) r && sent_res r && fut_is false f
+                  then match f_q f with Some q => [(q, f_peer f)] | None => [] end
+                  else []
+      | None => []
+      end
+  | _ => []
+  end.
+Fixpoint put_sends (g : gcfg) (s : st) (es : list ev) : list (N * N) :=
+  match es with
+  | [] => []
+  | e :: t => put_sent_by s e ++ put_sends g (fst (fst (step g s e))) t
+  end.
+
+(* well-formed commands: the routing table never hands out the local peer, and
+   put_record_to_peers is not given the same peer twice *)
+Definition cmd_ok (g : gcfg) (e : ev) : Prop :=
+  match e with
+  | ECmd _ _ _ seeds => ~ In (g_local g) seeds
+  | EPutToPeers _ _ ps => NoDup ps
+  | _ => True
+  end.
